@@ -2418,7 +2418,15 @@ class TypeEnv:
             fi: FuncInfo = ft[1]
             if fi.node.returns is None:
                 return prog.inferred_return_type(fi)
-            return prog.ann_to_type(fi.module, fi.node.returns, fi.cls)
+            at = prog.ann_to_type(fi.module, fi.node.returns, fi.cls)
+            if strip_opt(at)[0] == 'any' and not fi.is_property and fi.node.body and \
+                    not any(isinstance(d_, ast.Name) and d_.id == 'abstractmethod' or isinstance(d_, ast.Attribute) and d_.attr == 'abstractmethod'
+                            for d_ in fi.node.decorator_list):
+                # `-> Any` / `-> Optional[Any]` says nothing: what the return statements hand back says more
+                it = prog.inferred_return_type(fi)
+                if it[0] != 'any':
+                    return it
+            return at
         if ft[0] == 'strmethod':
             m = ft[1]
             if m in ('join', 'upper', 'lower', 'strip', 'rstrip', 'lstrip', 'format', 'replace', 'title',
